@@ -12,6 +12,7 @@
 #include <mutex>
 #include <condition_variable>
 #include <atomic>
+#include <chrono>
 #include <iostream>
 #include <sstream>
 #include "nfl/prng/crypto_stream_salsa20.h"
@@ -76,7 +77,8 @@ static void gshare(int T, int R, std::ostringstream& os) {
 // ---------------- cooperative scheduler ----------------
 static std::mutex mu; static std::condition_variable cv;
 static bool cooperative = false;
-struct TS { int parked_at = -1; unsigned long long val = 0; bool go = false; bool done = false; };
+struct TS { int parked_at = -1; unsigned long long val = 0; bool go = false; bool done = false; bool probing = false; bool virtual0 = false; };
+static int passed_unseeded = 0;   // requests that got past the one-time initialisation while another thread was still inside it
 static std::vector<TS> ts; static thread_local int my_tid = -1;
 static int once_owner = -1; static bool once_done = false;     // replica of the one-time initialisation state, for the "blocked" rule
 static std::vector<int> fetch_order;
@@ -87,6 +89,9 @@ extern "C" void nfl_verif_point(int point, unsigned long long value) {
   if (point == 1) once_owner = my_tid;
   if (point == 2 && once_owner == my_tid) once_done = true;
   if (point == 3) fetch_order.push_back(my_tid);
+  // a thread that was released into the one-time initialisation while another one owned it (see the scheduler) arrives here only after the
+  // owner has finished: for the model it is still at point 0, its next scheduled step is the step 0 -> 2 it has already made
+  if (ts[my_tid].probing) { ts[my_tid].probing = false; if (point == 2) ts[my_tid].virtual0 = true; }
   ts[my_tid].parked_at = point; ts[my_tid].val = value; ts[my_tid].go = false;
   cv.notify_all();
   cv.wait(lk, [&] { return ts[my_tid].go; });
@@ -132,7 +137,16 @@ int main() {
   while (ss >> t) {
     std::unique_lock<std::mutex> lk(mu);
     if (t < 0 || t >= T || ts[t].done) continue;
-    if (ts[t].parked_at == 0 && once_owner >= 0 && !once_done && once_owner != t) continue;   // would block inside the one-time initialisation: a no-op step
+    if ((ts[t].parked_at == 0 || ts[t].probing) && once_owner >= 0 && !once_done && once_owner != t) {
+      // the model: this thread blocks inside the one-time initialisation another thread is performing -- a no-op step.  The real code is ASKED:
+      // the thread is released and must NOT arrive at a further point while the owner is still inside (it stays released; it moves on by
+      // itself once the owner has finished, see nfl_verif_point)
+      if (!ts[t].probing) { ts[t].probing = true; ts[t].go = true; ts[t].parked_at = -1; cv.notify_all(); }
+      if (cv.wait_for(lk, std::chrono::milliseconds(25), [&] { return settled(t); })) passed_unseeded++;
+      continue;
+    }
+    if (ts[t].probing) cv.wait(lk, [&] { return settled(t); });      // the owner has finished: the released thread is on its way to point 2
+    if (ts[t].virtual0) { ts[t].virtual0 = false; continue; }         // the step 0 -> 2 the thread has already made
     ts[t].go = true; ts[t].parked_at = -1; cv.notify_all();
     cv.wait(lk, [&] { return settled(t); });
   }
@@ -141,6 +155,7 @@ int main() {
   for (auto& x : th) x.join();
   long total = 0; for (int t2 = 0; t2 < T; t2++) total += (long)prog[t2].size();
   for (int t2 = 0; t2 < T; t2++) { os << "t" << t2 << ":"; for (auto& r : results[t2]) os << " " << identify(r.first.data(), r.second, total + 4) << "/" << r.second; os << " "; }
+  if (passed_unseeded) os << "| PASSED-UNSEEDED=" << passed_unseeded << " ";
   os << "| seedings=" << seed_calls.load() << " order=";
   for (int x : fetch_order) os << x << ",";
   puts(os.str().c_str());
